@@ -16,8 +16,8 @@ PID = "C02"
 TRANSLATORS = ["T-jumpi", "T-consts"]
 
 OPTIONS = [{}, {"solver_timeout_branching": 0}, {"solver_timeout_branching": 10000}, {"loop": 1}, {"loop": 3}, {"solver_timeout_branching": 10000, "loop": 1}]
-PLAN_QUICK = [("branch", 18), ("memory", 6), ("storage", 10), ("hash", 8), ("loop", 12), ("call", 10), ("create", 6)]
-PLAN_THOROUGH = [("straight", 60), ("branch", 240), ("memory", 80), ("storage", 120), ("hash", 120), ("loop", 160), ("call", 160), ("create", 80)]
+PLAN_QUICK = [("branch", 18), ("memory", 6), ("storage", 10), ("hash", 8), ("loop", 12), ("call", 10), ("create", 6), ("symtarget", 24), ("valuecall", 18), ("callfail", 8)]
+PLAN_THOROUGH = [("straight", 60), ("branch", 240), ("memory", 80), ("storage", 120), ("hash", 120), ("loop", 160), ("call", 160), ("create", 80), ("symtarget", 300), ("valuecall", 240), ("callfail", 100)]
 
 
 def run(rep, tier):
@@ -27,7 +27,7 @@ def run(rep, tier):
     try:
         C01.run_tie(rep, tier, plan, PID + "-a", PID, "c02", options_list=OPTIONS, with_model=False)
         # legal oracle behaviour: 30 % of definite solver answers become `unknown`
-        half = [(p, max(2, n // 3)) for p, n in plan if p in ("branch", "loop", "storage", "call")]
+        half = [(p, max(2, n // 3)) for p, n in plan if p in ("branch", "loop", "storage", "call", "symtarget")] + [(p, n) for p, n in plan if p == "valuecall"]
         C01.run_tie(rep, tier, half, PID + "-b", PID, "c02", options_list=[{}, {"loop": 3}], patch_unknown=0.3, with_model=False)
     except RuntimeError as e:
         rep.obligation("extracted reference interpreter driver builds", False, str(e)[-600:])
